@@ -2,6 +2,7 @@
 //! operations (one per line on stdin) and prints one canonical result line per operation.
 use std::io::{BufRead, Write};
 
+mod ops_blake;
 mod ops_chacha;
 mod ops_null;
 mod ops_skein;
@@ -11,6 +12,8 @@ mod util;
 pub struct Ctx {
     pub profile_debug: bool,
     pub chacha: ops_chacha::St,
+    pub backend: String,
+    pub blake: ops_blake::St,
     pub skein: ops_skein::St,
 }
 
@@ -49,12 +52,14 @@ fn step(ctx: &mut Ctx, toks: &[&str]) -> String {
         }
         ["cfg", "backend", name] => {
             if set_backend(name) {
+                ctx.backend = name.to_string();
                 "ok".into()
             } else {
                 "bad-op".into()
             }
         }
         ["chacha", ..] | ["guts", ..] => ops_chacha::step(&mut ctx.chacha, toks),
+        ["blake", ..] => ops_blake::step(&mut ctx.blake, &ctx.backend, toks),
         ["null", ..] => ops_null::step(toks),
         ["tf", ..] | ["tfl", ..] => ops_threefish::step(toks),
         ["skein", ..] => ops_skein::step(&mut ctx.skein, toks),
@@ -70,6 +75,8 @@ fn main() {
     let mut ctx = Ctx {
         profile_debug: cfg!(debug_assertions),
         chacha: Default::default(),
+        backend: "ref".to_string(),
+        blake: Default::default(),
         skein: Default::default(),
     };
     for line in stdin.lock().lines() {
